@@ -43,6 +43,11 @@ def run_scenario(acc, sc):
         # the scenario runs on the SECOND connection of the same object (the first ended by connection loss)
         b.link.break_("eof")
         b.w.idle()
+        if sc.get("second") == "testreq-refused":
+            # between the connections the application tries the public send_test_req(): refused (FIXConnectionError), nothing is sent
+            r = b.w.call(ep.send_test_req())
+            if r[0] != "exc":
+                bad("setup/testreq-while-disconnected-not-refused", f"send_test_req() while disconnected returned {r!r}")
         b.w.advance(1.01)
         if role == "acceptor":
             b.link = b.w.attach_server_only()
@@ -392,6 +397,7 @@ def grid(acc, role):
                 run_scenario(acc, {"role": role, "hb": hb, "phase": phase, "script": sc, "own_traffic": False})
             for sc in [("silent",), ("answer", 0.9, "right"), ("periodic", 0.3, "0")]:
                 run_scenario(acc, {"role": role, "hb": hb, "phase": phase, "script": sc, "own_traffic": False, "second": True})
+                run_scenario(acc, {"role": role, "hb": hb, "phase": phase, "script": sc, "own_traffic": False, "second": "testreq-refused"})
                 for pre in ("rr-valid", "rr-beyond", "rr-inverted"):
                     run_scenario(acc, {"role": role, "hb": hb, "phase": phase, "script": sc, "own_traffic": False, "pre": pre})
     acc.klass("grid")
